@@ -181,6 +181,12 @@ func runC05(c *Ctx) {
 			for _, nc := range callsTo(f, nameIs("ltx.NewCompactor")) {
 				c.check(vCallResult(nameIs("io.Pipe"))(nc.Common().Args[0]), rule, fnName(f)+": ltx compactor writes into the pipe", c.pos(nc), "pipe writer", "compactor output is not the pipe")
 			}
+			// a failed merge must poison the pipe: the reader side (WriteLTXFile) then
+			// fails instead of storing a truncated stream as a complete file
+			for _, k := range callsTo(f, nameIs("(*ltx.Compactor).Compact", "ltx.NewCompactor")) {
+				out, over := failStop(f, k, false, true)
+				c.check(!over && len(out) == 0, rule, fnName(f)+": the error of "+calleeName(k)+" reaches the pipe writer", c.pos(k), "CloseWithError(non-nil) on every path after a failure", "a failed compaction closes the pipe cleanly: the truncated output would be stored as a complete file and acknowledged")
+			}
 		}
 	}
 
